@@ -267,6 +267,8 @@ func handJSONDocs() []string {
 			out = append(out, "query Q($v: String = "+sp+" @d(x: ["+sp+"])) { f(a: {k: "+sp+"}) @e(s: "+sp+") ... @i(s: "+sp+") { g } ...F @s(s: "+sp+") } fragment F on T @fd(s: "+sp+") { h(a: "+sp+") }")
 		}
 	}
+	// type references with non-null at every level of nesting
+	out = append(out, "query($a: [[Int]!], $b: [[[ID!]!]!]!, $c: [[Int!]]!, $d: [[[T]]!], $e: [T!], $f: [[T]!]!) { f }", "fragment F($a: [[Int]!] = [[1]], $b: [[T!]!]) on T { f }")
 	for _, body := range []string{"x\n\u3000a\n b", "\n\u00a0a\n\tb\n  c", "x\n\u2003\u2003a\n\u2003b\n c", "\n  \u3000a\n  b\n", "x\n\u00a0\n \u00a0y"} {
 		out = append(out, "{ f(a: \"\"\""+body+"\"\"\") }")
 	}
